@@ -294,7 +294,10 @@ class Expr(metaclass=UFLType):
     def __float__(self):
         """Try to evaluate as scalar and cast to float."""
         try:
-            v = float(self._ufl_evaluate_scalar_())
+            v = self._ufl_evaluate_scalar_()
+            # An unevaluated expression is not a number (and converting it
+            # would evaluate it again)
+            v = NotImplemented if isinstance(v, Expr) else float(v)
         except Exception:
             v = NotImplemented
         return v
@@ -302,7 +305,8 @@ class Expr(metaclass=UFLType):
     def __complex__(self):
         """Try to evaluate as scalar and cast to complex."""
         try:
-            v = complex(self._ufl_evaluate_scalar_())
+            v = self._ufl_evaluate_scalar_()
+            v = NotImplemented if isinstance(v, Expr) else complex(v)
         except TypeError:
             v = NotImplemented
         return v
